@@ -40,6 +40,54 @@ Definition spec (inp : list Z) : list Z :=
   | _ => [9]
   end.
 
+(* names computed inside templates (mode 2 of the harness).
+   input : 2 cb how np parent.. nn name.. found1     found1 = what the file system has for the first name asked:
+                                                     1 a readable file, 2 unreadable, 0 nothing
+   output: k (n c1..cn)*k       the names the loader is asked for, in order
+   The three callbacks of the harness, in Gallina (glue): *)
+Fixpoint join_with_slash (segs : list (list Z)) : list Z :=
+  match segs with
+  | [] => []
+  | [s] => s
+  | s :: r => s ++ 47 :: join_with_slash r
+  end.
+Definition cb_documented (nm parent : list Z) : list Z :=
+  let rv := removelast (split_slash parent) in
+  join_with_slash (fold_left (fun rv seg => match seg with
+                                            | [46] => rv
+                                            | [46; 46] => removelast rv
+                                            | _ => rv ++ [seg]
+                                            end) (split_slash nm) rv).
+Definition cb_of (k : Z) : option (list Z -> list Z -> list Z) :=
+  match k with
+  | 1 => Some cb_documented
+  | 2 => Some (fun nm _ => [46; 46; 47] ++ nm)
+  | 3 => Some (fun nm parent => parent ++ [47; 46; 46; 47] ++ nm)
+  | _ => None
+  end.
+Definition str_eqb (a b : list Z) : bool := if list_eq_dec Z.eq_dec a b then true else false.
+Fixpoint enc_strs (l : list (list Z)) : list Z :=
+  match l with [] => [] | s :: r => lenZ s :: s ++ enc_strs r end.
+
+Definition run_names (inp : list Z) : list Z :=
+  match inp with
+  | _ :: cb :: how :: r =>
+      let (parent, r1) := take_str r in
+      let (nm, r2) := take_str r1 in
+      let first_result := match r2 with 1 :: _ => LoadOk [] | 2 :: _ => LoadErr E_InvalidOperation | _ => LoadMissing end in
+      let e0 := mk_env (fun n => if str_eqb n parent then Some [] else None) None (cb_of cb) in
+      let first := join_template_path e0 nm parent in
+      let e := mk_env (stored e0)
+                      (Some (fun n => if str_eqb n first then first_result else LoadOk []))
+                      (cb_of cb) in
+      let '(_, asked) :=
+        if how =? 2 then extends_lookup e parent (Some nm)
+        else if how =? 5 then include_lookup e parent [Some nm; Some [97]]
+        else include_lookup e parent [Some nm] in
+      lenZ asked :: enc_strs asked
+  | _ => [9]
+  end.
+
 Open Scope string_scope.
 Definition runners : list (string * (list Z -> list Z)) :=
-  [ ("c17", run); ("c17-spec", spec) ].
+  [ ("c17", run); ("c17-spec", spec); ("c17-names", run_names) ].
